@@ -196,7 +196,9 @@ def h3(data: Optional[ArrayLike], bins=None, **kwargs) -> HistogramND:
             kwargs["axis_names"] = [
                 (column.name if hasattr(column, "name") else None) for column in data
             ]
-        data = np.concatenate([item[:, np.newaxis] for item in data], axis=1)
+        data = np.concatenate(
+            [np.asarray(item, dtype=float)[:, np.newaxis] for item in data], axis=1
+        )
     else:
         kwargs["dim"] = 3
     return h(data, bins, **kwargs)
